@@ -75,8 +75,10 @@ func setup(d *db, r interface{ IntN(int) int }, variant int) (*m.DB, error) {
 				switch {
 				case cn == "id":
 					row = append(row, int64(i+1))
+				case cn == "v":
+					row = append(row, int64(100+i)) // (u, v) is unique
 				case col.Kind == m.Int:
-					row = append(row, int64(r.IntN(10)))
+					row = append(row, int64(r.IntN(domain(cn))))
 				case col.Kind == m.Str:
 					row = append(row, fmt.Sprintf("init.%s.%d", s.Name, i))
 				default:
